@@ -51,7 +51,7 @@ def run_one(m, build, baseline):
                 res["status"] = "mutant fails the baseline: " + r.stdout[-300:]; return res
         fired, rules_hit, out_all = False, [], ""
         for p in m["props"]:
-            r = subprocess.run([os.path.join(VERIF, "bin", "rcvet"), "check", "-p", p, "-repo", s, "-no-evidence"],
+            r = subprocess.run([os.environ.get("RCVET_BIN", os.path.join(VERIF, "bin", "rcvet")), "check", "-p", p, "-repo", s, "-no-evidence"],
                                env=ENV, capture_output=True, text=True)
             out_all += r.stdout
             if r.returncode == 1 and "VIOLATION property=" + p in r.stdout:
